@@ -70,7 +70,20 @@ type failProbe struct {
 	st **engStats
 }
 
+var engKeywords = [3]string{"kw0", "kw1", "kw2"}
+
+var (
+	warming   bool
+	warmUntil time.Time
+)
+
 func (f *failProbe) Parse(ctx *parsley.Context, l data.IntMap, pos parsley.Pos) (parsley.Node, data.IntSet, parsley.Error) {
+	if warming && time.Now().After(warmUntil) {
+		panic("warm-up cut short")
+	}
+	// the context's public setters may be used while a parse runs (a keyword terminal that registers its word when
+	// it is tried): that is bookkeeping of the context and leaves results, errors, cache and counts alone
+	ctx.RegisterKeywords(engKeywords[int(pos)%3])
 	n, cp, err := f.p.Parse(ctx, l, pos)
 	if n == nil && err != nil {
 		st := *f.st
@@ -388,6 +401,10 @@ type engEnv struct {
 	rules []*Term
 	root  *Term
 	early *text.Reader
+
+	rawBytes []byte
+	offset   int
+	warmLeft int
 }
 
 func (e *engEnv) fresh(memo bool) (*parsley.Context, *engStats, parsley.Parser, *text.Reader) {
@@ -399,12 +416,39 @@ func (e *engEnv) fresh(memo bool) (*parsley.Context, *engStats, parsley.Parser, 
 		b.rules[i] = parser.Func(b.build(rt).Parse)
 	}
 	root := b.build(e.root)
+	if memo && e.warmLeft > 0 && os.Getenv("VERIF_NOWARM") == "" {
+		e.warmLeft-- // the first two memoised graphs of a case (raw and Sentence)
+		e.warm(root, stp)
+	}
 	r := e.early
 	if r == nil {
 		r = text.NewReader(e.file)
 	}
 	ctx := parsley.NewContext(e.fs, r)
 	return ctx, st, root, r
+}
+
+// the graph parses other inputs first (own file, file set, reader and context each; the probes log into a
+// throw-away record): nothing of that may show in the observed run
+func (e *engEnv) warm(root parsley.Parser, stp **engStats) {
+	saved := *stp
+	defer func() {
+		_ = recover()
+		*stp = saved
+	}()
+	defer func() { warming = false }()
+	for _, w := range warmInputs(e.rawBytes)[:2] {
+		*stp = &engStats{active: map[[2]int]int{}}
+		f, fs := warmFile(w, e.offset)
+		func() {
+			defer func() { _ = recover() }()
+			// a warm-up is cut short after 4 ms (the probes look at the clock): the longer inputs can cost an
+			// ambiguous grammar far more than the observed one
+			warming, warmUntil = true, time.Now().Add(4*time.Millisecond)
+			ctx := parsley.NewContext(fs, text.NewReader(f))
+			_, _, _ = root.Parse(ctx, data.EmptyIntMap, f.Pos(0))
+		}()
+	}
 }
 
 func (e *engEnv) raw(memo bool) string {
@@ -471,7 +515,7 @@ func newEngEnv(t *Term) *engEnv {
 	}
 	engData = bytes.Replace(raw, []byte("\r\n"), []byte("\n"), -1) // what NewFile keeps
 	engOffset = int(f.Pos(0))
-	return &engEnv{file: f, fs: fs, rules: t.Args[0].List(), root: t.Args[1], early: early}
+	return &engEnv{file: f, fs: fs, rules: t.Args[0].List(), root: t.Args[1], early: early, rawBytes: raw, offset: offset, warmLeft: 2}
 }
 
 // Eng rules root data offset flags
